@@ -40,6 +40,11 @@ const (
 	coRespond = "respond" // peer answers the S-th answerable stream with headers + trailers(OK)
 	coCancel  = "cancel"  // application cancels the S-th live stream
 	coWait    = "wait"
+	// coGraceful: the client drains the transport itself (GracefulClose, what the channel does when the
+	// subchannel is shut down or its address list is replaced while RPCs are in flight). No GOAWAY is
+	// involved; streams already created must be unaffected, also by a GOAWAY the server sends afterwards.
+	// NewStream is not called on the transport afterwards (the channel never does).
+	coGraceful = "graceful"
 )
 
 // GOAWAY id kinds.
@@ -86,6 +91,7 @@ func genCPlan1(rt *rapid.T, bad bool) CPlan {
 	n := rapid.IntRange(5, vk.Pick(20, 100)).Draw(rt, "nops")
 	gpos := rapid.IntRange(2, n-1).Draw(rt, "first_goaway_at") // a GOAWAY at this position at the latest
 	goaways := 0
+	graceful := false
 	for i := 0; i < n; i++ {
 		var op COp
 		w := rapid.IntRange(0, 99).Draw(rt, "w")
@@ -124,6 +130,9 @@ func genCPlan1(rt *rapid.T, bad bool) CPlan {
 			op.K, op.S = coCancel, rapid.IntRange(0, 15).Draw(rt, "s")
 		case w < 92:
 			op.K = coWait
+		case w < 96 && !graceful && i >= 2:
+			op.K = coGraceful
+			graceful = true
 		default:
 			op.K = coOpen
 		}
@@ -203,6 +212,7 @@ func runClient(t *testing.T, p CPlan) (out cOutcome) {
 		var streams []*cStream
 		var goaways []cGoAway
 		settledGoAways := 0
+		clientDraining := false
 		expectConnError := ""
 		bad := func(format string, a ...any) {
 			if out.bad == "" {
@@ -340,7 +350,20 @@ func runClient(t *testing.T, p CPlan) (out cOutcome) {
 			}
 			out.steps++
 			switch op.K {
+			case coGraceful:
+				if rig.Conn.Closed() || clientDraining {
+					break
+				}
+				clientDraining = true
+				class("client_graceful_close")
+				if len(goaways) == 0 {
+					class("client_graceful_close_before_any_goaway")
+				}
+				rig.CT.GracefulClose()
 			case coOpen:
+				if clientDraining {
+					break // outside the callers' behaviour: the channel never starts a stream on a transport it has drained
+				}
 				c := &cStream{idx: len(streams), path: fmt.Sprintf("/c14/m%d", len(streams)), done: make(chan struct{}), issuedAfterGoAways: settledGoAways}
 				streams = append(streams, c)
 				if len(goaways) > 0 {
@@ -452,6 +475,9 @@ func runClient(t *testing.T, p CPlan) (out cOutcome) {
 				var proof [8]byte
 				proof[0], proof[1] = 0xc1, byte(len(goaways)+1)
 				goaways = append(goaways, cGoAway{id: id, proof: proof})
+				if clientDraining {
+					class("goaway_after_client_graceful_close")
+				}
 				peer.WriteGoAway(id, http2.ErrCode(op.Code), []byte("c14"))
 				peer.WritePing(false, proof)
 			case coRespond:
@@ -580,7 +606,8 @@ func fieldOf(f *h2peer.Frame, name string) string {
 var cClassOrder = []string{"no_goaway", "two_or_more_goaways", "goaway_id_inside_open_id_range", "newstream_issued_between_goaways", "stream_created_between_goaways_reached_wire", "goaway_id_zero", "goaway_id_maxint",
 	"goaway_even_id", "goaway_id_increased", "second_goaway_valid", "second_goaway_lower_id", "connection_error_expected", "newstream_after_goaway_written",
 	"newstream_failed_retryable", "created_but_never_on_wire", "stream_above_goaway_id_unprocessed", "stream_below_goaway_id_survives",
-	"answered_stream_completed_ok_despite_goaway", "completed_ok_stream_flagged_unprocessed_by_contradictory_goaway", "transport_closed_itself_when_drained_and_empty", "max_concurrent_streams_limited"}
+	"answered_stream_completed_ok_despite_goaway", "completed_ok_stream_flagged_unprocessed_by_contradictory_goaway", "transport_closed_itself_when_drained_and_empty", "max_concurrent_streams_limited",
+	"client_graceful_close", "client_graceful_close_before_any_goaway", "goaway_after_client_graceful_close"}
 
 func clientRun(t *testing.T, p CPlan) vk.Result {
 	out := runClient(t, p)
